@@ -86,6 +86,10 @@ type Req struct {
 	// DSN's password is read back from the store and becomes a canary.
 	ReadUser string `json:"read_user,omitempty"`
 	ReadDSN  string `json:"read_dsn,omitempty"`
+	// Spelling is the name-spelling class (spell_test.go) under which the
+	// request names its setting / user / DSN; empty when the name is written
+	// the canonical way by a builder that has no spelling dimension.
+	Spelling string `json:"spelling,omitempty"`
 }
 
 // Case is a logger configuration and a list of requests.
@@ -181,7 +185,7 @@ var (
 	devLeaks map[string]string
 )
 
-func (wd *world) exec(rq Req) (status int, nonEmpty bool, leaks []leak) {
+func (wd *world) exec(rq Req) (status int, nonEmpty bool, leaks []leak, resolved string) {
 	if devTimes != nil {
 		t0 := time.Now()
 		defer func() {
@@ -215,12 +219,23 @@ func (wd *world) exec(rq Req) (status int, nonEmpty bool, leaks []leak) {
 		// before it is still a response.
 		text += fmt.Sprintf("\npanic: %v", resp.Panic)
 	}
+	if rq.Spelling != "" {
+		resolved = resolution(rq, resp.Status, resp.Body)
+	}
 	hits := wd.reg.scan(text)
 	if len(hits) == 0 {
-		return resp.Status, len(resp.Body) > 0, nil
+		return resp.Status, len(resp.Body) > 0, nil, resolved
+	}
+	// A leak under a non-canonical spelling of the name has a cause of its own
+	// (the secrecy test and the look-up normalise the name differently); the
+	// signature names the family of the spelling.
+	spelled := ""
+	if fam := spellFamily[rq.Spelling]; fam != "" && fam != "canonical" {
+		spelled = " [name spelled with: " + fam + "]"
 	}
 	seen := map[string]bool{}
 	add := func(sig string, h hit) {
+		sig += spelled
 		if !seen[sig] {
 			seen[sig] = true
 			leaks = append(leaks, leak{sig: sig, observed: fmt.Sprintf("%s %s -> %d; the response contains a %s (%s, found %s): …%s…", rq.Method, rq.Path, resp.Status, h.class, h.form, h.pass, h.context)})
@@ -256,7 +271,7 @@ func (wd *world) exec(rq Req) (status int, nonEmpty bool, leaks []leak) {
 			add(fmt.Sprintf("%s leaks %s (%s)", rq.Route, h.class, h.form), h)
 		}
 	}
-	return resp.Status, len(resp.Body) > 0, leaks
+	return resp.Status, len(resp.Body) > 0, leaks, resolved
 }
 
 func statusClass(s int) string {
@@ -288,13 +303,16 @@ func oracle(c Case) vkit.Outcome {
 	var all []leak
 	labels := map[string]bool{}
 	for i, rq := range reqs {
-		st, nonEmpty, leaks := w.exec(rq)
+		st, nonEmpty, leaks, resolved := w.exec(rq)
 		if i == 0 {
 			if st != 200 {
 				out.Inconclusive = fmt.Sprintf("logger set-up answered %d", st)
 			}
 		} else {
 			labels[rq.Route+" "+statusClass(st)] = true
+			if rq.Spelling != "" {
+				labels["spelling | "+rq.Route+" | "+rq.Spelling+" | "+resolved] = true
+			}
 			if st/100 == 2 && nonEmpty {
 				out.NonTrivial = true
 			}
@@ -349,6 +367,7 @@ func TestC44(t *testing.T) {
 		Level: "exploration",
 		Rule: "canaries planted in every secret-holding store and setting (user passwords and their stored hashes, DSN passwords and their stored ciphertext, token key, logon/refresh token, OAuth client secret setting, userdata key, default credential, AS client secrets / secret hash, AS signing key); " +
 			"fixed part: every setting name alone through POST /admin/config, the all-settings form, every GET route with every existing name, every echoing POST/PATCH/DELETE, every logger with the secret-carrying operations followed by the log endpoint, profile reads through POST /admin/run, the OAuth AS endpoints; " +
+			"name spellings (fixed and generated): every secret setting name through POST /admin/config and profile.Get, every user in /admin/users/{name}, every DSN in /dsns/{dsn}/ under each spelling class (case, white-space padding incl. NBSP/ZWSP/BOM, trailing dot/NUL, JSON-/percent-escaped, fullwidth/Cyrillic/Kelvin-long-s, duplicates in one request, URL path forms); " +
 			"generated part: 1-6 requests over the live route table with generated path names, query parameters (declared ones by type, plus undeclared flags), Accept variants, near-valid payloads, a generated logger set, then the log endpoint. " +
 			"Non-trivial: at least one request of the case answered 2xx with a non-empty body; distinct by the case (logger set + request list).",
 		Assumptions: []string{
